@@ -39,6 +39,10 @@ def run(ctx):
                            max_timestamp=full["base_timestamp"] + r.choice([-5000, -60000, -1000, 250, 86400000]))
                 batches.append((f"reference-{i}-logappendtime", refbatch.enc_batch(lat)))
             batches.append((f"reference-{i}", refbatch.enc_batch(full)))
+            if i % 5 == 2:
+                # a batch whose records were all removed by compaction: the broker keeps the (then 61-byte) batch to preserve the
+                # producer's sequence state - record count 0, the other header fields as they were: well-formed
+                batches.append((f"reference-{i}-emptied", refbatch.enc_batch(dict(full, records=[]))))
         except Exception:  # noqa: out-of-range delta for struct
             continue
     rcases, meta = [], []
